@@ -116,3 +116,27 @@ pub fn xmldump_service() -> ! {
     let _ = o.flush();
     std::process::exit(0)
 }
+
+pub fn orderhash_service(kind: u32, perm: usize, nperms: usize) -> ! {
+    conv::install_quiet_panic_hook();
+    let corpus = crate::shapes::order_corpus(kind);
+    let order = crate::shapes::order_perm(corpus.len(), perm, nperms);
+    let mut hashes = vec![0u64; corpus.len()];
+    let sett = Sett { backdrop: false, defs: false, styles: true, ..Sett::default_() };
+    for i in order {
+        let h = match conv::convert(&corpus[i], &sett, Entry::WithSettings) {
+            Ok(o) => runner::hash64(&o),
+            Err(_) => 1,
+        };
+        hashes[i] = h;
+    }
+    let stdout = std::io::stdout();
+    let mut o = stdout.lock();
+    let _ = write!(o, "@@H");
+    for h in hashes {
+        let _ = write!(o, " {:x}", h);
+    }
+    let _ = writeln!(o);
+    let _ = o.flush();
+    std::process::exit(0)
+}
